@@ -595,8 +595,47 @@ Fixpoint balg (S : settings) (o : bop) (R : rhs_in) (logdet reduce : bool) (prob
       end
   end.
 
+(* the dense matrix a member denotes (meaning of the exact solves behind LinearOperator.inv_quad) *)
+Definition dense_of (o : op) : mat :=
+  match o with
+  | Generic _ M _ => M
+  | Diag d => diag_mat A (size d) d
+  | Ident n => eye A n
+  | Tri _ _ T => T
+  | Chol up n T => if up then mmul A n n n (mtr A n T) T else mmul A n n n T (mtr A n T)
+  | Kron fs => kron_dense fs
+  | KPAD fs dk => kpad_dense fs dk
+  | LRRAD n k U d => madd A n n (mtab n n (fun i j => sumn_ (fun a => amul A (mget U i a) (mget U j a)) k)) (diag_mat A n d)
+  | Exact _ M => M
+  end.
+
+(* LinearOperator.inv_quad on a leaf batch: InvQuad.apply (Cholesky solve, or the class's _solve: linear_cg for the classes
+   without a structured _solve, an exact structured solve otherwise), then .sum(-1) if reduce_inv_quad.
+   CholLinearOperator overrides inv_quad. *)
+Definition leaf_inv_quad (S : settings) (bs : seq nat) (ms : seq op) (R : bool * seq cols) (reduce : bool) : result out :=
+  let n := op_size (head (Ident 0) ms) in
+  let t := size (head [::] R.2) in
+  match head (Ident 0) ms with
+  | Chol _ _ _ =>
+      ROk (chol_iql bs [seq (if o is Chol up k T then (up, k, T) else (false, 0, [::])) | o <- ms] (Some R) false reduce).1
+  | hd =>
+      let cg_class := match hd with Generic _ _ _ => true | KPAD _ (KDiag _) => true | _ => false end in
+      let gs := [seq MkG n (dense_of o) (if o is Generic _ _ pc then pc else None) | o <- ms] in
+      if cg_class then
+        match invquad_forward S n gs R.2 with
+        | RErr e => RErr e
+        | ROk vals => ROk (mk_iq bs t reduce vals)
+        end
+      else ROk (mk_iq bs t reduce [seq [seq dense_iq_col n (g_M gr.1) r | r <- gr.2] | gr <- zip gs R.2])
+  end.
+
 (* the three public entry points *)
 Definition inv_quad_logdet := balg.
+Definition inv_quad (S : settings) (o : bop) (R : bool * seq cols) (reduce : bool) : result out :=
+  match o with
+  | BLeaf bs ms => leaf_inv_quad S bs ms R reduce
+  | _ => RErr ENotImplemented      (* wrappers: covered by the direct predicate only *)
+  end.
 (* LinearOperator.logdet:  _, res = self.inv_quad_logdet(inv_quad_rhs=None, logdet=True) *)
 Definition logdet (S : settings) (o : bop) (probes : cols) : result out :=
   match balg S o None true true probes with ROk (_, ld) => ROk ld | RErr e => RErr e end.
